@@ -508,7 +508,7 @@ class EvalMixin:
             v = SV(ty.t, z3.Select(T.list_arr(ty, base.t), z3.If(i < 0, i + n, i)))
             self.assume_wf(st, v); return v
         if isinstance(ty, T.Dict):
-            k = self.coerce(idx, ty.k).t
+            k = (self.coerce(idx, ty.k, st, node) if not self.spec else self.coerce(idx, ty.k)).t
             if not self.spec: self.oblige(st, z3.Select(T.dict_dom(ty, base.t), k), "key-in-dict", node)
             v = SV(ty.v, z3.Select(T.dict_map(ty, base.t), k))
             self.assume_wf(st, v); return v
